@@ -132,8 +132,15 @@ let comp_expr line =
   match tokens line with
   | [units; envt; treet; impl] ->
     (try
+       (* optional prefix Q<code>: (quote character of the rendered if forms) is the driver's business *)
+       let units = if String.length units > 0 && units.[0] = 'Q'
+         then (let i = String.index units ':' in String.sub units (i + 1) (String.length units - i - 1)) else units in
        let c = parse_list units in
        let e = parse_env envt in
+       if treet = "x" then
+         (* not an expression (it ends in an operator): it must be rejected everywhere *)
+         model_token e c ^ " " ^ fmt_bool (impl = "X|E|_|_")
+       else
        let t = parse_tree treet in
        model_token e c ^ " " ^ fmt_bool (verdict e t impl)
      with _ -> "BADCASE 0")
